@@ -166,7 +166,7 @@ def run(ctx):
         t = {"spec": c["spec"], "inputs": c["inputs"], "template": c["template"], "ref": None}
         ctx.inconc("replay of C04 cases needs the template parameters; re-run the tier with the recorded seed")
         return
-    n = 70 if ctx.tier == "quick" else 4000
+    n = 160 if ctx.tier == "quick" else 4000
     # systematic part: every iteration count for the core templates
     sysn = 0
     for N in range(0, 10 if ctx.tier == "thorough" else 6):
